@@ -247,7 +247,7 @@ class Run:
                             pr.logf.close()
                         self.collect(pr, rc, "campaign %s shard %d.%d" % (camp["test"], i, st["j"] - 1))
                         st["proc"] = None
-                        if self.failures or self.inconclusive:
+                        if self.alarms() or self.inconclusive:
                             stop = True
                     if st["left"] > 0 and not stop and time.time() < deadline:
                         n = min(chunk, st["left"])
@@ -309,6 +309,17 @@ class Run:
         except OSError:
             return []
         return [e for e in k.get("known", []) if e.get("property") == self.prop]
+
+    def alarms(self):
+        """failures that are not a recorded finding (a known finding shown by its replay must not end the campaigns early)"""
+        known = self.known()
+        out = []
+        for f in self.failures:
+            sig = str(f.get("sig", ""))
+            if any(k.get("sig") == sig or (k.get("sig_prefix") and sig.startswith(k["sig_prefix"])) for k in known):
+                continue
+            out.append(f)
+        return out
 
     def report(self, write_evidence=True):
         known = self.known()
